@@ -4,7 +4,7 @@ from mc.props import rcommon
 ID = "C07"
 TITLE = "Resolution never guesses between candidates; id. follows only its predecessor"
 TECHNIQUE = (
-    "explicit-state model checking of the real resolve_citations: all event sequences <= L over a 53-symbol citation-kind "
+    "explicit-state model checking of the real resolve_citations: all event sequences <= L over a 55-symbol citation-kind "
     "alphabet + BFS over canonical resolver states to fix-point (canon soundness checked) + extracted lists; oracle: safety against a reference model that computes the candidate documents of every non-full citation from the preceding full citations (attached => unique candidate; id. => predecessor's resource and plausible pin cite)"
 )
 TECHNIQUE += "; also: long lists (a short head followed by 100-520 filler citations), every shorter prefix and the whole list re-resolved on the same objects, an oracle that normalises reporters from reporters-db (spelling, edition dates) rather than from the code's guess; sequences <= 3 over the core alphabet again under python -O"
